@@ -150,12 +150,19 @@ def virtUnk (n : String) : Rec := ⟨.unk, [n], true⟩
 def virtLink (l : Link) : Rec :=
   ⟨.L, [l.frm, orientStr l.fo, l.to, orientStr l.too, String.ofList l.ovl.print], true⟩
 
-/-- append a virtual segment for every listed name that no segment carries yet -/
-def ensureSegs (st : St) : List String → St
-  | [] => st
-  | n :: ns =>
-    if (findSeg st n).isSome then ensureSegs st ns
-    else ensureSegs { st with lines := st.lines ++ [virtSeg st.ver n] } ns
+/-- make sure a segment called `n` exists: a virtual `unknown` placeholder of that name is turned into a
+    virtual segment; a name held by a real line of another type is a clash -/
+def ensureSeg (st : St) (n : String) : Except Err St :=
+  if (findSeg st n).isSome then .ok st else
+  match st.lines.findIdx? (fun q => q.name = some n) with
+  | none => .ok { st with lines := st.lines ++ [virtSeg st.ver n] }
+  | some i =>
+    if (st.lines.getD i default).rt = .unk then .ok { st with lines := st.lines.set i (virtSeg st.ver n) }
+    else .error .notUnique
+
+def ensureSegs (st : St) : List String → Except Err St
+  | [] => .ok st
+  | n :: ns => (ensureSeg st n).bind (fun st1 => ensureSegs st1 ns)
 
 /-- append a virtual `unknown` record for every listed identifier not in use yet -/
 def ensureItems (st : St) : List String → St
@@ -165,12 +172,12 @@ def ensureItems (st : St) : List String → St
     else ensureItems { st with lines := st.lines ++ [virtUnk n] } ns
 
 /-- append a virtual link for every required path step with no compatible stored link -/
-def ensureLinks (st : St) : List Link → St
-  | [] => st
+def ensureLinks (st : St) : List Link → Except Err St
+  | [] => .ok st
   | l :: ls =>
-    let st1 := ensureSegs st [l.frm, l.to]
-    if (findLink st1 l).isSome then ensureLinks st1 ls
-    else ensureLinks { st1 with lines := st1.lines ++ [virtLink l] } ls
+    (ensureSegs st [l.frm, l.to]).bind fun st1 =>
+      if (findLink st1 l).isSome then ensureLinks st1 ls
+      else ensureLinks { st1 with lines := st1.lines ++ [virtLink l] } ls
 
 -- ------------------------------------------------------------------ add
 def allowed (v : Ver) : RT → Bool
@@ -179,8 +186,6 @@ def allowed (v : Ver) : RT → Bool
   | .E | .G | .F | .O | .U | .unk => v == .gfa2
 
 def replaceAt (ls : List Rec) (i : Nat) (r : Rec) : List Rec := ls.set i r
-
-def indexOfRec (st : St) (p : Rec → Bool) : Option Nat := st.lines.findIdx? p
 
 /-- tags of a record -/
 def Rec.tags (r : Rec) : List String := r.fields.drop (npos r.rt)
@@ -193,15 +198,43 @@ def mergeTags (prev cur : List String) : Option (List String) :=
   else some (cur ++ prev.filter (fun p => !cur.any (fun c => tagName c == tagName p)))
 
 /-- references the new record needs, created as virtual lines when missing -/
-def ensureRefs (st : St) (r : Rec) : St :=
-  let st1 := match r.rt with
-    | .P => ensureLinks (ensureSegs st r.segRefs) r.pathSteps
-    | _ => ensureSegs st r.segRefs
-  ensureItems st1 r.itemRefs
+def ensureRefs (st : St) (r : Rec) : Except Err St :=
+  (ensureSegs st r.segRefs).bind fun st1 =>
+  (match r.rt with
+    | .P => ensureLinks st1 r.pathSteps
+    | _ => .ok st1).map fun st2 => ensureItems st2 r.itemRefs
+
+/-- does the field look like a tag (`Segment._subclass`: `^..:.:.*$`)? -/
+def tagLike (s : String) : Bool :=
+  match s.toList with
+  | _ :: _ :: ':' :: _ :: ':' :: _ => true
+  | _ => false
+
+/-- number of positional fields of an S line: the fields before the trailing run of tag-like fields -/
+def segPositionals (fields : List String) : Nat := (fields.reverse.dropWhile tagLike).length
+
+/-- the GFA version an S line is written in -/
+def segSyntax (r : Rec) : Option Ver :=
+  match segPositionals r.fields with
+  | 2 => some .gfa1
+  | 3 => some .gfa2
+  | _ => none
+
+/-- register `r` after its references exist; its own identifier must still be free -/
+def register (st : St) (r : Rec) : Except Err St :=
+  (ensureRefs st r).bind fun st1 =>
+    match r.name with
+    | some n => if hasName st1 n then .error .notUnique else .ok { st1 with lines := st1.lines ++ [r] }
+    | none => .ok { st1 with lines := st1.lines ++ [r] }
+
+/-- the real line `r` takes the place of the placeholder at index `i` -/
+def substitute (st : St) (i : Nat) (r : Rec) : Except Err St :=
+  ensureRefs { st with lines := replaceAt st.lines i r } r
 
 /-- `Gfa.add_line` for a connected-state Gfa of known version -/
 def add (st : St) (r : Rec) : Except Err St :=
   if !allowed st.ver r.rt then .error .version else
+  if r.rt = .S ∧ segSyntax r ≠ some st.ver then (if (segSyntax r).isNone then .error .format else .error .version) else
   match r.rt with
   | .L =>
     match r.linkOf with
@@ -213,43 +246,40 @@ def add (st : St) (r : Rec) : Except Err St :=
       | some i =>
         let prev := st.lines.getD i default
         if prev.virt then
-          -- the real link replaces the placeholder
-          .ok (ensureSegs { st with lines := replaceAt st.lines i r } r.segRefs)
+          match r.name with
+          | some n => if hasName st n then .error .notUnique else substitute st i r
+          | none => substitute st i r
         else
           match prev.linkOf with
           | some k => if l.isComplement k then .ok st else .error .notUnique
           | none => .error .notUnique
       | none =>
         match r.name with
-        | some n => if hasName st n then .error .notUnique
-                    else .ok (let st1 := ensureSegs st r.segRefs; { st1 with lines := st1.lines ++ [r] })
-        | none => .ok (let st1 := ensureSegs st r.segRefs; { st1 with lines := st1.lines ++ [r] })
+        | some n =>
+          -- the ID tag of a link lives in the namespace of the identifiers
+          match st.lines.findIdx? (fun q => q.name = some n) with
+          | none => register st r
+          | some i => if (st.lines.getD i default).virt ∧ (st.lines.getD i default).rt = .unk then substitute st i r
+                      else .error .notUnique
+        | none => register st r
   | _ =>
     match r.name with
-    | none =>
-      let st1 := ensureRefs st r
-      .ok { st1 with lines := st1.lines ++ [r] }
+    | none => register st r
     | some n =>
       match st.lines.findIdx? (fun q => q.name = some n) with
-      | none =>
-        let st1 := ensureRefs st r
-        .ok { st1 with lines := st1.lines ++ [r] }
+      | none => register st r
       | some i =>
         let prev := st.lines.getD i default
         if prev.virt then
-          if prev.rt = .unk ∨ prev.rt = r.rt then
-            let st1 := { st with lines := replaceAt st.lines i r }
-            .ok (ensureRefs st1 r)
+          if prev.rt = .unk ∨ prev.rt = r.rt then substitute st i r
           else .error .notUnique
         else if (r.rt = .O ∨ r.rt = .U) ∧ prev.rt = r.rt then
           -- several group lines with one identifier: items concatenated, tags united
           match mergeTags prev.tags r.tags with
           | none => .error .notUnique
           | some tg =>
-            let sep := " "
-            let merged : Rec := ⟨r.rt, [n, fld prev 1 ++ sep ++ fld r 1] ++ tg, false⟩
-            let st1 := { st with lines := replaceAt st.lines i merged }
-            .ok (ensureRefs st1 r)
+            let merged : Rec := ⟨r.rt, [n, fld prev 1 ++ " " ++ fld r 1] ++ tg, false⟩
+            ensureRefs { st with lines := replaceAt st.lines i merged } r
         else .error .notUnique
 
 -- ------------------------------------------------------------------ removal cascade
@@ -260,7 +290,8 @@ def dependsOn (st : St) (dead : List Nat) (i : Nat) : Bool :=
   | some r =>
     let deadRecs := dead.filterMap (fun j => st.lines[j]?)
     let deadSegs := deadRecs.filterMap (fun d => if d.rt = .S then d.name else none)
-    let deadNamed := deadRecs.filterMap (fun d => if d.rt = .G then none else d.name)
+    -- a set only *mentions* a gap (the mention is dropped); a path over a removed gap goes with it
+    let deadNamed := deadRecs.filterMap (fun d => if d.rt = .G ∧ r.rt = .U then none else d.name)
     let deadLinks := deadRecs.filterMap Rec.linkOf
     r.segRefs.any (fun n => deadSegs.contains n) ||
     r.itemRefs.any (fun n => deadNamed.contains n) ||
